@@ -124,6 +124,7 @@ def _init(ast_path, mod, cls, kw, seed):
     if not hasattr(h, 'sample_this_path'): pass
     m = Machine(ast, hash_order=h.hash_order, release=h.release, fuel=h.fuel)
     m.domains.update(h.domains()); m.char_ops_forbidden = h.char_ops_forbidden
+    m.probe_domains = dict(getattr(h, 'probe_domains', lambda: {})())
     z3.set_param('smt.random_seed', seed % 1000)
     _W['h'] = h; _W['m'] = m; _W['drv'] = path_function(h)
 
@@ -158,7 +159,7 @@ def _task(prefix, budget, deadline):
         if time.time() > deadline: break
     res['leftover'] = list(m.work); m.work = []
     res['stats'] = {k: m.stats[k] - q0.get(k, 0) for k in m.stats}
-    res['called'] = sorted(m.called); res['char_splits'] = m.char_splits
+    res['called'] = sorted(m.called); res['char_splits'] = m.char_splits; res['probe_splits'] = m.probe_splits
     return res
 
 # ---------------------------------------------------------------------------------------------- master side
@@ -194,7 +195,7 @@ def run_harness(ast_path, mod, cls, kw, seed=0, workers=None, time_cap=120, path
                 for s in r['samples']:
                     if len(agg['samples']) < 12: agg['samples'].append(s)
                 for k, n in r['stats'].items(): agg['stats'][k] = agg['stats'].get(k, 0) + n
-                agg['called'].update(r['called']); agg['char_splits'] = max(agg['char_splits'], r['char_splits'])
+                agg['called'].update(r['called']); agg['char_splits'] = max(agg['char_splits'], r['char_splits']); agg['probe_splits'] = max(agg.get('probe_splits', 0), r.get('probe_splits', 0))
                 queue.extend(r['leftover'])
             if (time.time() >= deadline or agg['paths'] >= path_cap) and queue:
                 agg['complete'] = False; agg['unexplored_prefixes'] = len(queue); queue = []
@@ -207,4 +208,5 @@ def local_harness(ast, mod, cls, kw, seed=0):
     h.build(); h._rng = random.Random(seed); h._sample_rate = 0.0
     m = Machine(ast, hash_order=h.hash_order, release=h.release, fuel=h.fuel)
     m.domains.update(h.domains()); m.char_ops_forbidden = h.char_ops_forbidden
+    m.probe_domains = dict(getattr(h, 'probe_domains', lambda: {})())
     return h, m
